@@ -63,6 +63,7 @@ type World struct {
 	opBuildsCache   map[string][]buildOutcome
 	opDispatchCache *opDispatch
 	reachStepCache  map[*ssa.Function]bool
+	initStateCache  *AState
 	axBuildsCache   map[string][]buildOutcome
 }
 
